@@ -140,6 +140,21 @@ def run_deriv(case):
             events.append(judge("derivative/jvp-equals-finite-difference", best / scale, 2e-7, key + "/jvp-vs-fd/" + name, jvp=d_j, fd=fds))
         sample["jvp_" + name] = d_j
         sample["fd_" + name] = fds[1e-4]
+    # (iii-b) the same comparison from a state left by a previous block (pop_control shift != e_estimate, reconfigured walkers):
+    # plain and AD entry points started from the SAME second-block state must still agree
+    if e_plain is not None:
+        from ad_afqmc import config
+
+        pd2 = afqmc.copy_pd(pd_v)
+        pd2 = prop.orthonormalize_walkers(pd2)
+        pd2 = prop.stochastic_reconfiguration_global(pd2, config.not_a_comm())
+        pd2["e_estimate"] = 0.9 * pd2["e_estimate"] + 0.1 * float(e_v)
+        Oj = jnp.array(observables[0][1])
+        e2_ad, d2, _ = jax.jvp(wrapper, (0.0, Oj, pd2), (1.0, 0.0 * Oj, _tangent(pd2)), has_aux=True)
+        e2_plain, _ = smp.propagate_phaseless(ham, hd, prop, afqmc.copy_pd(pd2), trial, wd)
+        cnt["jvp_calls"] += 1
+        events.append(judge("primal/equals-plain-sampler-second-block", abs(float(e2_ad) - float(e2_plain)) / max(1.0, abs(float(e2_plain))), 1e-10,
+                            key + "/primal-plain-second-block", ad=float(e2_ad), plain=float(e2_plain)))
     # (v) per-spin trace of the AD density matrix with a single energy block
     if case["shape"][1] == 1 and case["shape"][2] == 1:
         tr = [float(np.trace(rdm1[0])), float(np.trace(rdm1[1]))]
